@@ -311,6 +311,9 @@ def parseWOp (shared : List (Nat × String)) (s : String) : Option WOp :=
   | ["rd", i, n, h] => do pure (.regDyn (← nat? i) (← nat? n) (← nat? h))
   | ["ro", i, n, h] => do pure (.regObs (← nat? i) (← nat? n) (← nat? h))
   | ["ra", i, h] => do pure (.regAny (← nat? i) (← nat? h))
+  | ["del", i, n] => do pure (.del (← nat? i) (← nat? n))
+  | ["rst", i, n] => do pure (.del (← nat? i) (← nat? n))     -- obj.reset_traits(["<name>"])
+  | ["q1", i] => do pure (.query (← nat? i))
   | ["at", i, n, code] =>
     -- only members that allocate nothing: c<v>, fa<k>
     match parseMember shared code {} with
